@@ -34,10 +34,11 @@ const QUANTITIES: [&str; 14] = ["angle", "capacitance", "charge", "current", "po
 
 /// the first data element of `txt`, or the error code the lexer gives instead
 fn tok_or_code(txt: &[u8]) -> std::result::Result<Token<'_>, i64> {
-    match scpi::parser::tokenizer::Tokenizer::new_params(txt).next() {
-        Some(Ok(t)) if t.is_data() => Ok(t),
-        Some(Err(e)) => Err(scpi::error::Error::from(e).get_code() as i64),
-        _ => Err(-1),
+    match catch(std::panic::AssertUnwindSafe(|| scpi::parser::tokenizer::Tokenizer::new_params(txt).next())) {
+        Ok(Some(Ok(t))) if t.is_data() => Ok(t),
+        Ok(Some(Err(e))) => Err(scpi::error::Error::from(e).get_code() as i64),
+        Ok(_) => Err(-1),
+        Err(_) => Err(99999), // the lexer panicked
     }
 }
 /// a row for a literal the lexer itself refuses (a defined suffix must get through it too)
